@@ -1698,6 +1698,23 @@ fn corpus() -> Vec<(Value, &'static str)> {
     v.push((r_text("asc", &format!("   0.000001 1  36f  Rx   d 21845 {}\n   0.000002 1  36f  Rx   d 65535 {}\n", "ab ".repeat(21845), "cd ".repeat(65535))), "w_long_tag"));
     v.push((with_flag(r_text("asc", "date Fri Apr 12 08:55:37 AM 2024\n   429496.000000 1  36f  Rx   d 0\n   429490.000000 1  36f  Rx   d 0\n"), "ref"), "w_asc_ts_offset"));
     v.push((r_text("log", "[2024-01-02 03:04:05.678] [INF] [tag] message\n[2024-13-40 25:61:61.999] [€€€] [éé] m\n[2999-12-31 23:59:59.999] [ERR] [ää] m\n"), "w_genlog"));
+    // every apid candidate of one abbreviation in use (Abcd, Abc1..Abc9, Ab10..Ab99, A100..A999, 1000..9999 as tags of their own), then a
+    // tag with that abbreviation: get_apid_for_tag ran its u16 iteration counter over (debug) / looped forever (release); repaired by 7a6b3d3
+    {
+        let mut tags: Vec<String> = vec!["Abcd".into()];
+        for i in 1..10 { tags.push(format!("Abc{}", i)); }
+        for i in 10..100 { tags.push(format!("Ab{}", i)); }
+        for i in 100..1000 { tags.push(format!("A{}", i)); }
+        for i in 1000..10000 { tags.push(format!("{}", i)); }
+        tags.push("Abcde".into());
+        tags.push("AbcdX".into());
+        let mut t = String::new();
+        for (k, tg) in tags.iter().enumerate() { t.push_str(&format!("{}.{:03} 1 2 I {}: m\n", 10 + k / 1000, k % 1000, tg)); }
+        v.push((r_text("txt", &t), "w_apid_exhausted"));
+        let mut t = String::new();
+        for (k, tg) in tags.iter().enumerate() { t.push_str(&format!("[2024-01-02 03:04:{:02}.{:03}] [INF] [{}] m\n", k / 1000, k % 1000, tg)); }
+        v.push((r_text("log", &t), "w_apid_exhausted"));
+    }
     v
 }
 
